@@ -11,6 +11,7 @@ delivering k bytes per read) and adapter outcome and records are compared with t
 """
 import bz2, gzip, io, json, os, shutil
 
+from vf import codecdrv as cd
 from vf import check, common, gen, observe, simulate, tlc
 from vf.common import MachineryError
 
@@ -126,7 +127,7 @@ def fifo_opener(path, blob):
 def read_all(opener):
     try:
         rd = opener()
-        out = [json.dumps(observe.obs_record(r), sort_keys=True) for r in rd]
+        out = [cd.obs_key(r) for r in rd]          # (the fold-blind observation key C01 / C02 / C04 use)
         try:
             rd.close()
         except Exception:
@@ -400,7 +401,7 @@ def run(tier):
                 if container == "json" and codec != "none":
                     continue  # the property names record stream and Avro as the compressed containers; JSON is exercised uncompressed only
                 recs = recs_av if container in ("avro",) else (streams if container == "stream" else recs_av)
-                expect = [json.dumps(observe.obs_record(r), sort_keys=True) for r in recs]
+                expect = [cd.obs_key(r) for r in recs]
                 for f in os.listdir(tmp):
                     os.remove(os.path.join(tmp, f))
                 written, std_ok = False, True
